@@ -195,7 +195,7 @@ pub fn run(ctx: &Ctx) {
          (hostile string pool: markup characters, entity look-alikes, ]]>, quotes, blanks inside, non-ASCII, empty; lists of length \
          0..2/3; options; numeric extremes) x 3 quote levels x indent off/on x expand-empty off/on x root name from the type / \
          with_root; plus, per payload position of each type (attribute, element text, $text, $value, list item in attribute / text, \
-         map value, newtype / struct / $text variant payload, char), every string up to length 3/4 over {< > & ' \" space tab LF CR FF ] ; # a é} \
+         map value, newtype / struct / $text variant payload, char), every string up to length 3/5 over {< > & ' \" space tab LF CR FF ] ; # a é} \
          inside that position's documented domain: to_string must succeed and from_str and from_reader of the output must equal the value. non-trivial = every \
          round trip (all values carry markup-relevant payloads or structure); distinct by construction. states = distinct document \
          skeletons produced",
@@ -212,7 +212,7 @@ pub fn run(ctx: &Ctx) {
         ($($t:ident),*) => { $( sweep::<$t>(ctx, ln, level, &known); ln += 1; )* };
     }
     crate::for_each_type!(go);
-    let max = ctx.tier.pick(3, 4);
+    let max = ctx.tier.pick(3, 5);
     macro_rules! go2 {
         ($($t:ident),*) => { $( sweep_payloads::<$t>(ctx, ln, max, &known); ln += 1; )* };
     }
